@@ -13,7 +13,7 @@ use crate::types::*;
 use crate::with_type;
 
 fn via_for(ty: usize, rng: &mut Rng) -> Via {
-    let v = *rng.pick(&VIAS_BASIC);
+    let v = *rng.pick(&crate::spec::VIAS_ALL);
     match v {
         Via::Spare(_) if TYPE_FIXED_CAP[ty].is_some() => Via::Set,
         Via::Spare(_) => Via::Spare(*rng.pick(&[1usize, 64, 65, 200])),
